@@ -134,7 +134,7 @@ def evalAll (v : Variant) (attr : Toks) (item : Item) (input : Toks) (m : Outcom
           row "C18" (P_C18 item),
           row "C19" (P_C19 attr item) ]
       let fs := findings attr item (if observable then rv else mv)
-      " ".intercalate (rows.map PropRow.show) ++ s!" stable={b3 stable} F={",".intercalate fs}"
+      " ".intercalate (rows.map PropRow.show) ++ s!" stable={b3 stable} idok={b3 item.identsOk} F={",".intercalate fs}"
   | _, _ => ""
 
 def hexDigit (n : Nat) : Char := if n < 10 then Char.ofNat (48 + n) else Char.ofNat (87 + n)
